@@ -826,6 +826,29 @@ impl<const M: usize> Sim<M> {
         Some(cands[self.rng.below(cands.len())].1)
     }
 
+    /// deallocate a zero-sized block (must be a no-op for everybody else)
+    pub fn op_deallocate_zst(&mut self, rep: &mut Report) {
+        if self.zsts.is_empty() {
+            return;
+        }
+        let i = self.rng.below(self.zsts.len());
+        let (ptr, align, id) = self.zsts.swap_remove(i);
+        self.cur = format!("Allocator::deallocate(id {},0,{})", id, align);
+        let layout = Layout::from_size_align(0, align).unwrap();
+        self.begin();
+        let b: &Bump<M> = &**self.bump;
+        let r = catch_unwind(AssertUnwindSafe(|| unsafe { b.deallocate(NonNull::new_unchecked(ptr), layout) }));
+        let ev = self.end(rep, OpKind::Dealloc);
+        if r.is_err() {
+            let msg = last_panic();
+            rep.violate("C12", format!("C12/deallocate-panicked/{}", normalise_msg(&msg)), msg);
+        }
+        rep.bump("c12.deallocate_zero_sized");
+        self.after_op(rep, OpKind::Dealloc, &ev);
+        self.check_live_blocks_still_reserved(rep, "deallocate");
+        self.tr(&[23]);
+    }
+
     pub fn op_deallocate(&mut self, rep: &mut Report, addr: usize) {
         let lv = match self.live.remove(&addr) {
             Some(l) => l,
@@ -855,6 +878,32 @@ impl<const M: usize> Sim<M> {
             Some(l) => l,
             None => return Outcome::Err,
         };
+        self.realloc_inner(rep, lv, addr, new_size, new_align, zeroed)
+    }
+
+    /// grow / grow_zeroed / shrink / deallocate starting from a *zero-sized* block
+    pub fn op_realloc_zst(&mut self, rep: &mut Report, new_size: usize, new_align: usize, zeroed: bool) -> Outcome {
+        if self.zsts.is_empty() {
+            return Outcome::Ok;
+        }
+        let i = self.rng.below(self.zsts.len());
+        let (ptr, align, id) = self.zsts.swap_remove(i);
+        rep.bump("c12.zero_sized_old_block");
+        let lv = Live { id, ptr, size: 0, align, extent: 0, ext_off: 0, exp: Vec::new(), layout: Some((0, align)), tag: 0 };
+        self.realloc_inner(rep, lv, ptr as usize, new_size, new_align, zeroed)
+    }
+
+    fn keep_block(&mut self, addr: usize, lv: Live) {
+        if lv.size == 0 {
+            if self.zsts.len() < 8 {
+                self.zsts.push((lv.ptr, lv.align, lv.id));
+            }
+        } else {
+            self.live.insert(addr, lv);
+        }
+    }
+
+    fn realloc_inner(&mut self, rep: &mut Report, lv: Live, addr: usize, new_size: usize, new_align: usize, zeroed: bool) -> Outcome {
         let (old_size, old_align) = lv.layout.unwrap();
         // equal sizes are legal for both grow and shrink: exercise both
         let grow = new_size > old_size || (new_size == old_size && self.rng.chance(1, 2));
@@ -864,7 +913,7 @@ impl<const M: usize> Sim<M> {
         let new_l = match Layout::from_size_align(new_size, new_align) {
             Ok(l) => l,
             Err(_) => {
-                self.live.insert(addr, lv);
+                self.keep_block(addr, lv);
                 return Outcome::Err;
             }
         };
@@ -954,7 +1003,7 @@ impl<const M: usize> Sim<M> {
             }
             Ok(Err(_)) => {
                 // the old block is untouched and still owned by the caller
-                self.live.insert(addr, lv);
+                self.keep_block(addr, lv);
                 rep.bump(&format!("c12.{}.err", name));
                 if grow && new_align <= M && new_align <= old_align && round_up(new_size, M) <= cap_before {
                     let p = if self.limit.is_some() { "C07" } else { "C09" };
@@ -966,7 +1015,7 @@ impl<const M: usize> Sim<M> {
                 let msg = last_panic();
                 let p = if msg.contains("aligned") { "C04" } else { "C12" };
                 rep.violate(p, format!("{}/{}-panicked/{}", p, name, normalise_msg(&msg)), format!("{} ({})", msg, self.cur));
-                self.live.insert(addr, lv);
+                self.keep_block(addr, lv);
                 Outcome::Panic
             }
         };
@@ -984,6 +1033,7 @@ impl<const M: usize> Sim<M> {
         let had_memory = !self.chunks.is_empty();
         let newest = self.chunks.last().cloned();
         self.live.clear();
+        self.zsts.clear();
         self.begin();
         let r = catch_unwind(AssertUnwindSafe(|| self.bump.reset()));
         let ev = self.end(rep, OpKind::Reset);
